@@ -174,7 +174,22 @@ func sizeContract(r *Result, dp *DriverPool, rng *rand.Rand, n int) {
 	for i := 0; i < n; i++ {
 		size := []int{0, 1, 5, 273, 1000, 5000}[rng.Intn(6)]
 		_, data := pickData(rng, 8000)
-		c := lzCfg{LC: 3, PB: 2, DictCap: 4096, BufSize: 4096, SizeInHeader: true, Size: int64(size), EOSMarker: rng.Intn(2) == 0, Matcher: rng.Intn(2)}
+		bufSize := 4096
+		if i%3 == 0 {
+			// sizes beyond dictionary + look-ahead: by the time the surplus arrives part of the accepted bytes has
+			// left the look-ahead buffer (Compressed() > 0), and the offered length is size + a few bytes, size or
+			// a little less (a seeded change that dropped Compressed() from the room computation was missed before)
+			size = []int{4096 + 273, 8192, 8193, 9000, 12000, 20000}[rng.Intn(6)]
+			bufSize = []int{273, 1000, 4096}[rng.Intn(3)]
+			want := size + []int{-300, -1, 0, 1, 7, 300, 5000}[rng.Intn(7)]
+			for len(data) < want {
+				_, more := pickData(rng, 8000)
+				data = append(data, more...)
+				data = append(data, byte(len(data)))
+			}
+			data = data[:want]
+		}
+		c := lzCfg{LC: 3, PB: 2, DictCap: 4096, BufSize: bufSize, SizeInHeader: true, Size: int64(size), EOSMarker: rng.Intn(2) == 0, Matcher: rng.Intn(2)}
 		if rng.Intn(3) == 0 {
 			c.SizeInHeader = false // fill() turns a positive size into SizeInHeader
 		}
@@ -218,6 +233,10 @@ func sizeContract(r *Result, dp *DriverPool, rng *rand.Rand, n int) {
 		}
 		// surplus bytes: refused with exact accepted count, over one or two calls
 		split := rng.Intn(len(data) + 1)
+		if size > 0 && rng.Intn(2) == 0 {
+			// the first call brings exactly the announced size (or nearly): the surplus comes in a call of its own
+			split = minInt(len(data), maxInt(0, size-[]int{0, 0, 1, 273, 300}[rng.Intn(5)]))
+		}
 		n1, e1 := w.Write(data[:split])
 		n2, e2 := w.Write(data[split:])
 		e3 := w.Close()
@@ -316,7 +335,7 @@ func checkLzmaWriter(prop string) func(a *checkArgs, r *Result) error {
 			return err
 		}
 		if prop == "C06" {
-			sizeContract(r, dp, rng, 120)
+			sizeContract(r, dp, rng, 180)
 		} else {
 			if err := c07Reader(a, r, dp, rng); err != nil {
 				return err
